@@ -50,15 +50,16 @@ def slotKind (c : Col) (key : Key) : Kind :=
 /-- may the element at a *known* key be absent? -/
 def admitsUndefined (k : Kind) : Bool := k.prim.undefined
 
+/-- the kind recorded for a known key (the first entry with that key, as `get`). -/
+def knownKind (kn : KList) (k : Key) : Kind := (kn.get k).getD Kind.never
+
 /-- every known index `≥ len` admits `undefined`. -/
-def absentIdxOk (len : Nat) : KList → Bool
-  | .nil => true
-  | .cons k v m => (decide (k.idx < len) || admitsUndefined v) && absentIdxOk len m
+def absentIdxOk (len : Nat) (kn : KList) : Bool :=
+  kn.keys.all fun k => decide (k.idx < len) || admitsUndefined (knownKind kn k)
 
 /-- every known field that `m` lacks admits `undefined`. -/
-def absentKeysOk (m : VMap) : KList → Bool
-  | .nil => true
-  | .cons k v r => ((m.get k).isSome || admitsUndefined v) && absentKeysOk m r
+def absentKeysOk (m : VMap) (kn : KList) : Bool :=
+  kn.keys.all fun k => (m.get k).isSome || admitsUndefined (knownKind kn k)
 
 /-- the array / object collection of a kind (a default when the state is absent). -/
 def arrayD (k : Kind) : Col := k.array.getD default
